@@ -83,9 +83,10 @@ def showOptCode : Option Nat → String
 /-- is_open answers of the operating system for the scratch paths (read / write) -/
 def openAnswer (mode kind : String) : Option Bool :=
   if mode = "r" then
-    if kind ∈ ["file0", "file5", "dir", "dir2", "sub", "trailing", "symfile", "symsym", "symdir", "dot"] then some true
+    if kind ∈ ["file0", "file5", "dir", "dir2", "sub", "trailing", "symfile", "symsym", "symdir", "dot", "weirdname", "relfile", "reldot",
+               "reldotdot", "reldir"] then some true
     else if kind ∈ ["filetrailing", "missing", "dangling", "selfloop", "loopa", "loopb", "longname", "underfile", "underloop",
-                    "longpath", "missingparent", "emptypath"] then some false
+                    "longpath", "missingparent", "emptypath", "relmissing", "relunder"] then some false
     else none
   else if mode = "w" then
     if kind = "new" then some true
@@ -96,21 +97,22 @@ def openAnswer (mode kind : String) : Option Bool :=
 
 /-- 0 = the standard function cleared the error code -/
 def mkdirAnswer (recursive : Bool) (kind : String) : Option Nat :=
-  if kind ∈ ["new", "dir", "dir2", "sub", "trailing", "symdir", "dot"] then some 0
+  if kind ∈ ["new", "dir", "dir2", "sub", "trailing", "symdir", "dot", "reldir"] then some 0
   else if kind = "newnested" then some (if recursive then 0 else 2)
   else if kind ∈ ["file0", "file5", "filetrailing", "dangling", "symfile", "symsym", "selfloop", "loopa", "loopb", "longname",
-                  "underfile", "underloop", "longpath", "emptypath", "fifo"] then some 1
+                  "underfile", "underloop", "longpath", "emptypath", "fifo", "weirdname", "relfile", "reldot", "reldotdot", "relunder"] then some 1
   else none
 
 /-- error code and number of entries of the (recursive) directory range -/
 def rangeAnswer (recursive : Bool) (kind : String) : Option (Nat × Nat) :=
   match kind with
   | "dir" | "symdir" => some (0, 0)
-  | "dir2" | "trailing" => some (0, if recursive then 5 else 4)
+  | "dir2" | "trailing" | "reldir" => some (0, if recursive then 5 else 4)
   | "sub" => some (0, 1)
   | _ =>
     if kind ∈ ["file0", "file5", "filetrailing", "missing", "dangling", "symfile", "symsym", "selfloop", "loopa", "loopb",
-               "longname", "underfile", "underloop", "longpath", "missingparent", "emptypath", "fifo"] then some (1, 0)
+               "longname", "underfile", "underloop", "longpath", "missingparent", "emptypath", "fifo", "weirdname", "relfile", "reldot",
+               "reldotdot", "relmissing", "relunder"] then some (1, 0)
     else none
 
 /-- the environment the harness sets up -/
@@ -213,6 +215,9 @@ def colorNames : List String := ["foo", "bar", "baz", "fo", "foobar"]
 def osAnswer : String → Option (Option Nat)
   | "file0" => some (some 0) | "file5" => some (some 5) | "file4096" => some (some 4096)
   | "sparse5g" => some (some 5368709120)
+  | "weirdname" => some (some 7)
+  | "relfile" | "reldot" | "reldotdot" => some (some 5)
+  | "reldir" | "relmissing" | "relunder" => some none
   | "symfile" => some (some 5)
   | "symsym" => some (some 5)
   | "dir" | "missing" | "dangling" | "dot" | "emptypath" | "dir2" | "sub" | "trailing" | "filetrailing" | "missingparent" => some none
@@ -400,6 +405,14 @@ def handle (toks : List String) : String :=
         | some st => (match (Fcppt.C15.extract d st).2 with | some v => s!"some {v}" | none => "none")
         | none => "bad-op")
     | _, _ => "bad-op"
+  | ["writechars", "devfull", s] =>
+    -- /dev/full through an ofstream: libstdc++'s filebuf hands 1024 characters or more straight to the device (fails), fewer stay in its buffer
+    match payload s with
+    | some cs =>
+      let o : OStream := if cs.length < 1024 then {} else { room := some 0 }
+      let (o', r) := writeChars o (cs.map Char.toNat)
+      b01 r ++ " s: " ++ o'.bits
+    | none => "bad-op"
   | ["writechars", kind, s] =>
     match mkOut kind, payload s with
     | some o, some cs =>
